@@ -405,146 +405,7 @@ func runC13(c *Ctx) {
 
 	c.Rule("R13.3", func() {
 		c.Floor("R13.3", 7)
-		prop := c.Func("analysis/dfa/dense", "(*fwdBuilder).propagate")
-		all := DeepFuncs(prop, 2)
-		isEnqueue := func(in ssa.Instruction) bool {
-			ci, ok := in.(ssa.CallInstruction)
-			return ok && IsCallTo(ci, densePkg+".nodeHeap.enqueue")
-		}
-		// (a) store to out[i] ⇒ enqueue before leaving the body
-		nStores := 0
-		for _, f := range all {
-			Instrs(f, false, func(in ssa.Instruction) {
-				st, ok := in.(*ssa.Store)
-				if !ok {
-					return
-				}
-				if _, isIdx := st.Addr.(*ssa.IndexAddr); !isIdx || !AddrFrom(st.Addr, IsFieldOf("blockInfo", "out")) {
-					return
-				}
-				nStores++
-				t, path := PathAvoiding(f, st, func(x ssa.Instruction) bool { _, ok := x.(*ssa.Return); return ok }, isEnqueue, nil)
-				// the two statements are independent: an enqueue earlier in the very same block (same branch) is as good
-				for _, x := range st.Block().Instrs {
-					if isEnqueue(x) {
-						t = nil
-					}
-				}
-				c.Check(FuncKey(prop)+"::changed-edge-fact-⇒-enqueue-successor", st.Pos(), t == nil, "after storing a new out fact the edge's successor must be re-enqueued on every path; path without enqueue: %s", PathString(f, path))
-				// the enqueued node is the successor the loop is at, not the block itself
-				for _, ci := range Calls(f, false) {
-					if isEnqueue(ci) {
-						arg := ci.Common().Args[len(ci.Common().Args)-1]
-						isSucc := DerivesLocal(arg, func(v ssa.Value) bool { _, ok := v.(*ssa.Parameter); return ok })
-						c.Check(FuncKey(prop)+"::enqueue-the-successor", ci.Pos(), isSucc, "the node enqueued is the loop's successor node")
-					}
-				}
-			})
-		}
-		if nStores == 0 {
-			c.Undecided("no store to blockInfo.out[i] found in propagate")
-		}
-		// (b) skipping a block requires !dirty and unchanged input
-		var dq, inStore ssa.Instruction
-		var lenCalls []ssa.Instruction
-		Instrs(prop, false, func(in ssa.Instruction) {
-			if ci, ok := in.(ssa.CallInstruction); ok {
-				if IsCallTo(ci, densePkg+".nodeHeap.dequeue") {
-					dq = in
-				}
-				if IsCallTo(ci, densePkg+".nodeHeap.Len") {
-					lenCalls = append(lenCalls, in)
-				}
-			}
-			if st, ok := in.(*ssa.Store); ok && IsFieldOf("blockInfo", "in")(st.Addr) {
-				inStore = in
-			}
-		})
-		if dq == nil || inStore == nil || len(lenCalls) == 0 {
-			c.Undecided("propagate no longer has the dequeue / store-in / queue.Len shape")
-		}
-		notDirty := CondEdges(prop, func(cond ssa.Value) (bool, bool) {
-			u, ok := cond.(*ssa.UnOp)
-			return ok && u.Op == token.MUL && IsFieldOf("blockInfo", "dirty")(u.X), false
-		})
-		sameIn := CondEdgesPhi(prop, func(cond ssa.Value) (bool, bool) {
-			call, ok := cond.(*ssa.Call)
-			return ok && call.Call.IsInvoke() && call.Call.Method.Name() == "Equals" && anyArg(call, func(v ssa.Value) bool { return DerivesLocal(v, IsFieldOf("blockInfo", "in")) }), true
-		})
-		isHead := func(x ssa.Instruction) bool {
-			for _, l := range lenCalls {
-				if l == x {
-					return true
-				}
-			}
-			return false
-		}
-		isInStore := func(x ssa.Instruction) bool { return x == inStore }
-		for name, edges := range map[string]map[Edge]bool{"clean": notDirty, "input-unchanged": sameIn} {
-			t, path := PathAvoiding(prop, dq, isHead, isInStore, edges)
-			c.Check(FuncKey(prop)+"::skip-only-if-"+name, dq.Pos(), t == nil && len(edges) > 0, "a dequeued block may be skipped (no transfer) only if it is %s; skipping path: %s", name, PathString(prop, path))
-		}
-		// (c) out facts are read only from blocks that are not dirty
-		nReads := 0
-		for _, f := range all {
-			nd := CondEdges(f, func(cond ssa.Value) (bool, bool) {
-				u, ok := cond.(*ssa.UnOp)
-				return ok && u.Op == token.MUL && IsFieldOf("blockInfo", "dirty")(u.X), false
-			})
-			Instrs(f, false, func(in ssa.Instruction) {
-				u, ok := in.(*ssa.UnOp)
-				if !ok || u.Op != token.MUL {
-					return
-				}
-				if _, isIdx := u.X.(*ssa.IndexAddr); !isIdx || !AddrFrom(u.X, IsFieldOf("blockInfo", "out")) {
-					return
-				}
-				nReads++
-				ok2, path := MustPassEdges(f, u, nd)
-				c.Check(FuncKey(prop)+"::out-of-unvisited-block-never-read", u.Pos(), ok2, "an edge fact may be read only under the !dirty edge of its block (a dirty block has no meaningful out facts); path: %s", PathString(f, path))
-			})
-		}
-		if nReads < 2 {
-			c.Undecided("expected reads of pred.out[i] and block.out[i] in propagate, found %d", nReads)
-		}
-		// (d) dirty cleared after the transfer loop
-		cleared := false
-		Instrs(prop, false, func(in ssa.Instruction) {
-			if st, ok := in.(*ssa.Store); ok && IsFieldOf("blockInfo", "dirty")(st.Addr) {
-				if k, ok := st.Val.(*ssa.Const); ok && k.Value != nil && k.Value.String() == "false" {
-					cleared = true
-				}
-			}
-		})
-		c.Check(FuncKey(prop)+"::dirty-cleared", prop.Pos(), cleared, "a processed block is marked clean")
-		// (e) queue membership bit
-		enq := c.Func("analysis/dfa/dense", "(*nodeHeap).enqueue")
-		deq := c.Func("analysis/dfa/dense", "(*nodeHeap).dequeue")
-		bitOp := func(f *ssa.Function, op token.Token) bool {
-			found := false
-			Instrs(f, false, func(in ssa.Instruction) {
-				if st, ok := in.(*ssa.Store); ok && AddrFrom(st.Addr, IsFieldOf("nodeHeap", "inQueue")) {
-					if bo, ok := st.Val.(*ssa.BinOp); ok && bo.Op == op {
-						found = true
-					}
-					// x &^ m spelled x & ^m
-					if bo, ok := st.Val.(*ssa.BinOp); ok && op == token.AND_NOT && bo.Op == token.AND {
-						for _, o := range []ssa.Value{bo.X, bo.Y} {
-							if u, ok := o.(*ssa.UnOp); ok && u.Op == token.XOR {
-								found = true
-							}
-						}
-					}
-				}
-			})
-			return found
-		}
-		c.Check(FuncKey(enq)+"::sets-membership-bit", enq.Pos(), bitOp(enq, token.OR), "enqueue records membership")
-		c.Check(FuncKey(deq)+"::dequeue-clears-membership-bit", deq.Pos(), bitOp(deq, token.AND_NOT), "dequeue must clear the membership bit, otherwise a node can never be re-enqueued and the iteration stops before the fixpoint")
-		// (f) Forward enqueues every node initially and marks it dirty
-		fwd := c.Func("analysis/dfa/dense", "Forward")
-		initEnq := len(CallsTo(fwd, true, densePkg+".nodeHeap.enqueue")) > 0
-		c.Check(FuncKey(fwd)+"::all-nodes-initially-enqueued", fwd.Pos(), initEnq, "every node is enqueued once at the start (transfer functions may introduce facts anywhere)")
+		denseSolverObligations(c)
 	})
 
 	c.Rule("R13.4", func() {
@@ -901,4 +762,150 @@ func AddrKeyOfLoad(v ssa.Value) string {
 		return AddrKeyOfLoad(f.X) + "." + fmt.Sprint(f.Field)
 	}
 	return AddrKey(v)
+}
+
+// denseSolverObligations: the re-enqueue pairing of the dense forward solver
+// (shared by C13 R13.3 and C15 R15.5 — nilness facts are only as sound as the
+// fixpoint they are read from).
+func denseSolverObligations(c *Ctx) {
+	prop := c.Func("analysis/dfa/dense", "(*fwdBuilder).propagate")
+	all := DeepFuncs(prop, 2)
+	isEnqueue := func(in ssa.Instruction) bool {
+		ci, ok := in.(ssa.CallInstruction)
+		return ok && IsCallTo(ci, densePkg+".nodeHeap.enqueue")
+	}
+	// (a) store to out[i] ⇒ enqueue before leaving the body
+	nStores := 0
+	for _, f := range all {
+		Instrs(f, false, func(in ssa.Instruction) {
+			st, ok := in.(*ssa.Store)
+			if !ok {
+				return
+			}
+			if _, isIdx := st.Addr.(*ssa.IndexAddr); !isIdx || !AddrFrom(st.Addr, IsFieldOf("blockInfo", "out")) {
+				return
+			}
+			nStores++
+			t, path := PathAvoiding(f, st, func(x ssa.Instruction) bool { _, ok := x.(*ssa.Return); return ok }, isEnqueue, nil)
+			// the two statements are independent: an enqueue earlier in the very same block (same branch) is as good
+			for _, x := range st.Block().Instrs {
+				if isEnqueue(x) {
+					t = nil
+				}
+			}
+			c.Check(FuncKey(prop)+"::changed-edge-fact-⇒-enqueue-successor", st.Pos(), t == nil, "after storing a new out fact the edge's successor must be re-enqueued on every path; path without enqueue: %s", PathString(f, path))
+			// the enqueued node is the successor the loop is at, not the block itself
+			for _, ci := range Calls(f, false) {
+				if isEnqueue(ci) {
+					arg := ci.Common().Args[len(ci.Common().Args)-1]
+					isSucc := DerivesLocal(arg, func(v ssa.Value) bool { _, ok := v.(*ssa.Parameter); return ok })
+					c.Check(FuncKey(prop)+"::enqueue-the-successor", ci.Pos(), isSucc, "the node enqueued is the loop's successor node")
+				}
+			}
+		})
+	}
+	if nStores == 0 {
+		c.Undecided("no store to blockInfo.out[i] found in propagate")
+	}
+	// (b) skipping a block requires !dirty and unchanged input
+	var dq, inStore ssa.Instruction
+	var lenCalls []ssa.Instruction
+	Instrs(prop, false, func(in ssa.Instruction) {
+		if ci, ok := in.(ssa.CallInstruction); ok {
+			if IsCallTo(ci, densePkg+".nodeHeap.dequeue") {
+				dq = in
+			}
+			if IsCallTo(ci, densePkg+".nodeHeap.Len") {
+				lenCalls = append(lenCalls, in)
+			}
+		}
+		if st, ok := in.(*ssa.Store); ok && IsFieldOf("blockInfo", "in")(st.Addr) {
+			inStore = in
+		}
+	})
+	if dq == nil || inStore == nil || len(lenCalls) == 0 {
+		c.Undecided("propagate no longer has the dequeue / store-in / queue.Len shape")
+	}
+	notDirty := CondEdges(prop, func(cond ssa.Value) (bool, bool) {
+		u, ok := cond.(*ssa.UnOp)
+		return ok && u.Op == token.MUL && IsFieldOf("blockInfo", "dirty")(u.X), false
+	})
+	sameIn := CondEdgesPhi(prop, func(cond ssa.Value) (bool, bool) {
+		call, ok := cond.(*ssa.Call)
+		return ok && call.Call.IsInvoke() && call.Call.Method.Name() == "Equals" && anyArg(call, func(v ssa.Value) bool { return DerivesLocal(v, IsFieldOf("blockInfo", "in")) }), true
+	})
+	isHead := func(x ssa.Instruction) bool {
+		for _, l := range lenCalls {
+			if l == x {
+				return true
+			}
+		}
+		return false
+	}
+	isInStore := func(x ssa.Instruction) bool { return x == inStore }
+	for name, edges := range map[string]map[Edge]bool{"clean": notDirty, "input-unchanged": sameIn} {
+		t, path := PathAvoiding(prop, dq, isHead, isInStore, edges)
+		c.Check(FuncKey(prop)+"::skip-only-if-"+name, dq.Pos(), t == nil && len(edges) > 0, "a dequeued block may be skipped (no transfer) only if it is %s; skipping path: %s", name, PathString(prop, path))
+	}
+	// (c) out facts are read only from blocks that are not dirty
+	nReads := 0
+	for _, f := range all {
+		nd := CondEdges(f, func(cond ssa.Value) (bool, bool) {
+			u, ok := cond.(*ssa.UnOp)
+			return ok && u.Op == token.MUL && IsFieldOf("blockInfo", "dirty")(u.X), false
+		})
+		Instrs(f, false, func(in ssa.Instruction) {
+			u, ok := in.(*ssa.UnOp)
+			if !ok || u.Op != token.MUL {
+				return
+			}
+			if _, isIdx := u.X.(*ssa.IndexAddr); !isIdx || !AddrFrom(u.X, IsFieldOf("blockInfo", "out")) {
+				return
+			}
+			nReads++
+			ok2, path := MustPassEdges(f, u, nd)
+			c.Check(FuncKey(prop)+"::out-of-unvisited-block-never-read", u.Pos(), ok2, "an edge fact may be read only under the !dirty edge of its block (a dirty block has no meaningful out facts); path: %s", PathString(f, path))
+		})
+	}
+	if nReads < 2 {
+		c.Undecided("expected reads of pred.out[i] and block.out[i] in propagate, found %d", nReads)
+	}
+	// (d) dirty cleared after the transfer loop
+	cleared := false
+	Instrs(prop, false, func(in ssa.Instruction) {
+		if st, ok := in.(*ssa.Store); ok && IsFieldOf("blockInfo", "dirty")(st.Addr) {
+			if k, ok := st.Val.(*ssa.Const); ok && k.Value != nil && k.Value.String() == "false" {
+				cleared = true
+			}
+		}
+	})
+	c.Check(FuncKey(prop)+"::dirty-cleared", prop.Pos(), cleared, "a processed block is marked clean")
+	// (e) queue membership bit
+	enq := c.Func("analysis/dfa/dense", "(*nodeHeap).enqueue")
+	deq := c.Func("analysis/dfa/dense", "(*nodeHeap).dequeue")
+	bitOp := func(f *ssa.Function, op token.Token) bool {
+		found := false
+		Instrs(f, false, func(in ssa.Instruction) {
+			if st, ok := in.(*ssa.Store); ok && AddrFrom(st.Addr, IsFieldOf("nodeHeap", "inQueue")) {
+				if bo, ok := st.Val.(*ssa.BinOp); ok && bo.Op == op {
+					found = true
+				}
+				// x &^ m spelled x & ^m
+				if bo, ok := st.Val.(*ssa.BinOp); ok && op == token.AND_NOT && bo.Op == token.AND {
+					for _, o := range []ssa.Value{bo.X, bo.Y} {
+						if u, ok := o.(*ssa.UnOp); ok && u.Op == token.XOR {
+							found = true
+						}
+					}
+				}
+			}
+		})
+		return found
+	}
+	c.Check(FuncKey(enq)+"::sets-membership-bit", enq.Pos(), bitOp(enq, token.OR), "enqueue records membership")
+	c.Check(FuncKey(deq)+"::dequeue-clears-membership-bit", deq.Pos(), bitOp(deq, token.AND_NOT), "dequeue must clear the membership bit, otherwise a node can never be re-enqueued and the iteration stops before the fixpoint")
+	// (f) Forward enqueues every node initially and marks it dirty
+	fwd := c.Func("analysis/dfa/dense", "Forward")
+	initEnq := len(CallsTo(fwd, true, densePkg+".nodeHeap.enqueue")) > 0
+	c.Check(FuncKey(fwd)+"::all-nodes-initially-enqueued", fwd.Pos(), initEnq, "every node is enqueued once at the start (transfer functions may introduce facts anywhere)")
 }
